@@ -46,7 +46,7 @@ ASSUMPTIONS = [
 ]
 TRUSTED = ['model coq/C20/Model.v is hand-written from thermosteam/separations.py and equilibrium/binary_phase_fraction.py '
            '(no translator; DESIGN mentions one for handle_infeasible_flow_rates, the tie is the correspondence check on every run)',
-           'pending_fixes/C20_7 (VLE._lever_rule) is needed for the real-flash corpus case to pass; C20_1..6 are applied in /repo',
+           'the real-flash cases rely on the lever-rule repair of /repo commit dd55412 (vapour clipped to the material present); C20_1..6 are applied in /repo',
     'the model follows the source with pending_fixes/C20_1..6 applied; on a tree without them the CORPUS cases '
            'reproduce each defect (mismatch + direct oracle message)',
            'material_balance(balance="composition") (iteration to convergence) and MultiStageEquilibrium are not modelled']
@@ -1492,7 +1492,7 @@ CORPUS = [   # minimised inputs of the defects found while building this check (
      'bot0': [0., 7.5, 1., 0., 0., 0., 3.], 'pkg': 'sup'},
     {'fn': 'mix_split', 'ins': [[0., 10., 0., 0., 0., 0.]], 'split': [0.5, 1., 1., 0.25, 1., 1.], 'alias': None, 'top0': Z6,
      'bot0': [0., 5., 0., 0., 1., 0., 0.], 'pkg': 'perm'},
-    # real flash, vapour composition specified 1e-6 above the feed's: the lever-rule fraction is clamped to 1 (pending fix C20_7)
+    # real flash, vapour composition specified 1e-6 above the feed's: the lever-rule fraction is clamped to 1 (defect repaired by /repo commit dd55412)
     {'fn': 'vle_real', 'flows': [20., 20.], 'spec': {'y': [0.500001, 0.499999], 'P': 101325.}, 'ms': True},
     # MultiStream top outlet, an inlet of another package in a phase the top only owns as its other-case twin
     {'fn': 'mix_split', 'ins': [[1., 2., 0., 0., 0., 0.], [0., 1., 4., 0., 0., 0.]], 'split': 0.5, 'alias': None, 'pkg': None,
